@@ -44,6 +44,10 @@ def run():
     section(rep, "chiral.test", lambda: _test(rep))
     section(rep, "chiral.invariant", lambda: _invariant(rep))
     section(rep, "chiral.table", lambda: rep.obligations.extend(tabvc.run_family(tabvc.chiral_table_obligation, list(range(1, 231)))))
+    # spglib is asked about the analysed structure with the analyzer's tolerance; the simple getters are dataset look-ups (shared section)
+    from props import _sym as _symmod
+    from props._util import section as _section
+    _section(rep, "dataset", lambda: _symmod.dataset_section(rep))
     return rep
 
 
